@@ -75,8 +75,8 @@ ASSUMPTIONS = [
 # M C M^T is ~1e-16 * S elementwise and the blocks are mixed by rotations; the generator keeps sigma_vel/sigma_pos
 # >= 1e-4 1/s so that the omega x r coupling of Earth-fixed frames (7.3e-5 1/s) does not swamp the velocity block.
 # Probed noise floor: 4.4e-15 for pure cov.frame= chains; worst over the thorough tier (2.0e6 hops, all drivers,
-# states given in Keplerian forms): 4.0e-13 (value, path, round trip), 1.4e-15 (symmetry), 5.6e-15 (eigenvalues,
-# relative to the largest). Tolerance = 250 x the worst observed; the smallest effect of a realistic bug (axes off
+# states given in Keplerian forms): 4.6e-13 (value, path, round trip), 1.4e-15 (symmetry), 5.6e-15 (eigenvalues,
+# relative to the largest). Tolerance = 200 x the worst observed; the smallest effect of a realistic bug (axes off
 # by the equation of the equinoxes, 1e-4 rad) is ~1e-4, S-11 itself is 5e-4 ... 1.4.
 TOL_VALUE = 1e-10
 TOL_EIG = 1e-9
